@@ -77,12 +77,14 @@ var shapes = []struct{ name, expr string }{
 	{"raw string spanning lines", "pick(`l1\nl2 é`, x)"},
 	{"padded", "  x  "},
 	{"composite with braces", "m[key{a: 1}]"},
+	{"replacement character inside", "pick(\"a\uFFFDb\", x)"},
 }
 
 var contexts = []struct{ name, prefix string }{
 	{"alone", ""},
 	{"after ascii text", "abc "},
 	{"after multi-byte text", "é€😀 "},
+	{"after a replacement character", "\uFFFD\uFFFD "},
 }
 
 // failingSrc is generated into a writer that fails part-way (multi-line and multi-byte expressions, several templates).
